@@ -99,7 +99,7 @@ func runC10(c *core.Ctx) {
 	c.Floor("R10h", 7, "VM pool discipline")
 	// ---------------- R10j reader-owned buffers: a line/segment borrowed from a decoder's buffer is never live across the
 	// next fill of that decoder unless copied (= C09 R09a): otherwise a record shows bytes of a later record
-	importRules(c, "C09", map[string]string{"R09a": "R10j", "R09i": "R10j"})
+	importRules(c, "C09", map[string]string{"R09a": "R10j", "R09i": "R10j", "R09j": "R10j"})
 	c.Floor("R10j", 15, "borrow sources, stores of borrowed data and refill sites")
 	// ---------------- R10i nothing is memoised into the shared schema while records are read (= C14 R14a)
 	if shared := c14SharedTypes(c); shared != nil {
